@@ -155,7 +155,10 @@ func init() {
 		c.ruleParseHelpers()
 		c.ruleConfigWiring()
 		c.rulePanicFree("config")
-	}, Explanation: "Flags defined = flags read = documented flags; each flag's default is the environment-derived value (flag > env > default by construction of package flag); FromEnv reads exactly the documented variables, lists through os.LookupEnv (set-but-empty honoured) with the documented defaults, the bool through parseBool on a non-empty value; parseStringList = split on commas, trim, drop empty, upper-case iff requested (requested for check codes on both paths); parseBool = strconv.ParseBool(lower(trim)) else yes/on; the analyzer owning the flags is named config and parses &pass.Analyzer.Flags once; the configuration cone has no reachable panic site."})
+		// "... and that the resolved value is what the analyzers actually use": how the resolved ScanTests and
+		// ExcludePaths are consumed
+		c.ruleSkipShape()
+	}, Explanation: "Flags defined = flags read = documented flags; each flag's default is the environment-derived value (flag > env > default by construction of package flag); FromEnv reads exactly the documented variables, lists through os.LookupEnv (set-but-empty honoured) with the documented defaults, the bool through parseBool on a non-empty value; parseStringList = split on commas, trim, drop empty, upper-case iff requested (requested for check codes on both paths); parseBool = strconv.ParseBool(lower(trim)) else yes/on; the analyzer owning the flags is named config and parses &pass.Analyzer.Flags once; the configuration cone has no reachable panic site; the resolved ScanTests / ExcludePaths are consumed by ShouldSkipFile as (name contains an exclude-paths entry) or (!ScanTests and *_test.go), each option independently of the other."})
 }
 
 func init() {
